@@ -80,7 +80,7 @@ ENTRIES = [
 ENC_PROPS = {
  'C04': ('CER', 'DER'), 'C05': ('BER', 'CER', 'DER'), 'C06': ('BER', 'CER', 'DER'), 'C07': ('BER', 'CER', 'DER'),
  'C10': ('BER', 'CER', 'DER'), 'C11': ('BER', 'CER', 'DER'), 'C12': ('BER', 'CER', 'DER'), 'C13': ('BER',),
- 'C16': ('BER', 'CER', 'DER'), 'C17': ('BER', 'CER', 'DER'), 'C18': ('BER', 'CER', 'DER'),
+ 'C17': ('BER', 'CER', 'DER'), 'C18': ('BER', 'CER', 'DER'),
 }
 ENC_WITNESS = {
  'stray-eoo': "('enc', ('tag', 'E', 'C', 9, ('int',)), 211, '%s', False, 0)",
@@ -107,6 +107,10 @@ for _prop, _codecs in sorted(ENC_PROPS.items()):
         else:
             _syms = ['%s:%s' % (c.lower(), _fam) for c in _c]
         ENTRIES.append((_prop, _fam, _syms, _w))
+
+ENTRIES.append(('C16', 'real-nr3-nodot', ['der:real-nr3-nodot'], "('c16', ('real',), ('r', -257, 10, 25), 'DER', '0909032d3235372e453235')"))
+
+ENTRIES.append(('C16', 'time-fraction-zeros', ['der:time-fraction-zeros'], "('c16', ('tag', 'E', 'P', 9, ('useful', 'GeneralizedTime')), '20000915230957.05Z', 'DER', 'e914181232303030303931353233303935372e30355a')"))
 
 EXTRA = [
  {'id': 'KF-C06-closed-mid-read', 'status': 'open', 'property': 'C06',
